@@ -132,29 +132,26 @@ def _wire(ctx, binp, scns, limit):
 # clause of Trace_Convert -> (function, class) of the candidate key
 def _trace_key(rec, clause):
     t = rec.get("t")
-    base, _, known = clause.partition(":")
     if t == "hdr":
         fn = {"h2md": "ConvertProtoHeaderToMetadata", "out": "AppendToOutgoingContext", "md2h": "ConvertMetadataToProtoHeader",
               "addh": "AddHeaders", "addt": "AddTrailers", "map2h": "ConvertToProtoHeader",
-              "rt": "ConvertProtoHeaderToMetadata"}.get(rec.get("op"), "?")
-        cls = {("result", "last-wins"): "repeated-key-last-wins", ("result", "bin-not-decoded"): "bin-not-decoded",
-               ("source", "encoded-in-place"): "source-bin-values-encoded-in-place"}.get((base, known), "other" if base == "result" else base)
-        return dict(area="hdr", op=rec.get("op"), fn=fn, **{"class": cls})
+              "rt": "ConvertProtoHeaderToMetadata+inverse"}.get(rec.get("op"), "?")
+        return dict(area="hdr", op=rec.get("op"), fn=fn, **{"class": "recorded-" + clause})
     if t == "err":
         fn = {"c": "ConvertProtoToConnectError", "p_c": "ConvertConnectToProtoError", "p_w": "ConvertErrorToProtoError(wrapped)",
-              "s": "ConvertProtoToGrpcError", "p_s": "ConvertGrpcToProtoError"}.get(base, base)
-        return dict(area="err", op="err", fn=fn, **{"class": "recorded-" + base})
+              "s": "ConvertProtoToGrpcError", "p_s": "ConvertGrpcToProtoError"}.get(clause, clause)
+        return dict(area="err", op="err", fn=fn, **{"class": "recorded-" + clause})
     if t == "pct":
-        return dict(area="pct", op="pct", fn="PercentEncodeMessage", **{"class": "recorded-" + base})
+        return dict(area="pct", op="pct", fn="PercentEncodeMessage", **{"class": "recorded-" + clause})
     if t == "codec":
         cn = "Strict%sCodec." % {"proto": "Proto", "json": "JSON"}.get(rec.get("codec"), "?")
-        if base == "wrote":
+        if clause == "wrote":
             return dict(area="codec", op=rec.get("codec"), fn=cn + "Marshal", **{"class": "marshal-wrong-format:" + str(rec.get("wrote"))})
-        if base == "stable":
+        if clause == "stable":
             return dict(area="codec", op=rec.get("codec"), fn=cn + "MarshalStable", **{"class": "marshal-wrong-format:" + str(rec.get("stable"))})
-        if base == "verdict":
+        if clause == "verdict":
             if rec.get("verdict") == "ok":
-                cls = "nested-unknown-field-accepted" if known == "top-level-only" else "unknown-field-accepted"
+                cls = "nested-unknown-field-accepted" if rec.get("where") == "nested" else "unknown-field-accepted"
             else:
                 cls = "valid-input-rejected"
             return dict(area="codec", op=rec.get("codec"), fn=cn + "Unmarshal", **{"class": cls})
